@@ -13,6 +13,21 @@ use stylua_lib::editorconfig;
 
 static CONFIG_FILE_NAME: [&str; 2] = ["stylua.toml", ".stylua.toml"];
 
+/// Lexically resolves `.` and `..` components of an absolute path
+fn normalize_path(path: &Path) -> PathBuf {
+    let mut normalized = PathBuf::new();
+    for component in path.components() {
+        match component {
+            std::path::Component::CurDir => {}
+            std::path::Component::ParentDir => {
+                normalized.pop();
+            }
+            other => normalized.push(other.as_os_str()),
+        }
+    }
+    normalized
+}
+
 fn read_config_file(path: &Path) -> Result<Config> {
     let contents = fs::read_to_string(path).context("Failed to read config file")?;
     let config = toml::from_str(&contents).context("Config file not in correct format")?;
@@ -72,7 +87,8 @@ impl ConfigResolver<'_> {
 
         let root = self.get_configuration_search_root();
 
-        let absolute_path = self.current_directory.join(path);
+        // Resolve `.` and `..` components, so that the search starts in the directory the file really is in
+        let absolute_path = normalize_path(&self.current_directory.join(path));
         let parent_path = &absolute_path
             .parent()
             .with_context(|| format!("no parent directory found for {}", path.display()))?;
